@@ -1,5 +1,6 @@
 import Ark.Proofs.Rejects
-import Ark.Generated.Facts
+import Ark.Generated.FactsLock
+import Ark.Generated.FactsAlive
 
 namespace Ark.Props.C10
 open Ark
